@@ -98,5 +98,5 @@ FamGate     == {Graphs3, EphChain4, Mixed2, Maps2}
 FamNestQuick    == {Nest3, NestHeld2s}
 FamNestThorough == {Nest3, Nest2x4, NestHeld2}
 FamNestGate     == {Nest2}
-FamNestGateThorough == {Nest3, NestHeld2}
+FamNestGateThorough == {Nest3, NestHeld2s}
 =============================================================================
